@@ -234,6 +234,11 @@ fn main() {
       let windows = h::lb::wait_windows();
       h::util::write_json(&args[3], &json!({"runs": beh.len(), "routes": routes, "with_issues": outs.len(), "windows": windows, "outcomes": outs.into_iter().take(100).collect::<Vec<_>>()}));
     }
+    "reqrep" => {
+      // vh reqrep <out.json>
+      let outs = h::reqrep::run_all();
+      h::util::write_json(&args[2], &json!({"runs": outs.len(), "outcomes": outs}));
+    }
     other => h::util::tool_error(&format!("unknown subcommand {}", other)),
   }
 }
